@@ -3,7 +3,7 @@ import expr_cluster as K
 import gen_expr as G
 
 PROP = "C07"
-CONE = K.MODEL_FILES + ["Proofs/ExprRefine.v", "Props/C07.v"]
+CONE = K.MODEL_FILES + ["Proofs/ExprRefine.v", "Proofs/ExprCorollaries.v", "Proofs/ExprRange.v", "Proofs/ExprSound.v", "Props/C07.v"]
 RULE = ("the generator of C06 with the guard shapes first (`xs and xs[0] > 0`, `opt is None or ...`, `0 < n < 10 // n`, "
         "`len(t) > 0 and len(t[0]) > 0`, `r.child is not None and r.child.size > 0`, conditional expressions) plus a "
         "layout stream: every condition of a base set under 7 layouts of the decorator (one line, many lines, comment, "
